@@ -48,7 +48,10 @@ def law_cases(rnd, n):
     for _ in range(n):
         s = ''.join(rnd.choice(alphabet) for _ in range(rnd.randint(0, 6)))
         esc = SF['regexEscape']([s], None)
-        rx = SF['regexNew'](['^' + esc + '\\Z', 's'], None) if isinstance(esc, str) else None
+        try:
+            rx = SF['regexNew'](['^' + esc + '\\Z', 's'], None) if isinstance(esc, str) else None
+        except Exception:  # pylint: disable=broad-except
+            rx = None            # the escaped text is not even a pattern: it matches nothing, in particular not s
         tests = [s]
         for _ in range(4):
             t = list(s)
@@ -61,7 +64,10 @@ def law_cases(rnd, n):
             tests.append(''.join(t))
         res = []
         for t in tests:
-            m = SF['regexMatch']([rx, t], None) if rx is not None else None
+            try:
+                m = SF['regexMatch']([rx, t], None) if rx is not None else None
+            except Exception:  # pylint: disable=broad-except
+                m = None
             res.append({'t': A.cps(t), 'matched': m is not None})
         out.append({'kind': 'regexEscape', 's': A.cps(s), 'escaped': isinstance(esc, str), 'tests': res, 'enc': [], 'comp': []})
         e1 = SF['urlEncode']([s], None)
